@@ -192,6 +192,12 @@ def templates(uni: qgen.Universe, rng: random.Random) -> List[T]:
         add(f"ds.Select(lambda e: {C}.Select(lambda j: j.vals().Where(lambda v: v > {th}).First()))", ["first", "inner_first", "where"])
         add(f"ds.Select(lambda e: {C}.Select(lambda j: j.vals()[{k}]))", ["index"])
         add(f"ds.Select(lambda e: {C}.Select(lambda j: j.hits()[{k}] + 1))", ["index"])
+        # an index before the beginning is as undefined as one past the end (ElementAt semantics): never a substitute
+        for neg in (1, 2):
+            add(f"ds.Select(lambda e: {C}.Select(lambda j: j.vals()[-{neg}]))", ["index", "negative_index"])
+            add(f"ds.Select(lambda e: {C}[-{neg}].pt())", ["index", "negative_index", "event_index"])
+        add(f"ds.Select(lambda e: {C}[{k}].pt())", ["index", "event_index"])
+        add(f"ds.Select(lambda e: {C}[{k}].pt() if {C}.Count() > {k} else -1.0)", ["index", "event_index", "ifexp", "guard"])
         add(f"ds.Select(lambda e: {C}.Select(lambda j: j.vals()[{k}] if j.vals().Count() > {k} else -1.0))", ["index", "ifexp", "guard"])
         add(f"ds.Select(lambda e: {C}.Where(lambda j: j.vals().Count() > {k} and j.vals()[{k}] > 0).Count())", ["index", "and", "guard"])
         add(f"ds.Select(lambda e: {C}.Where(lambda j: j.hits().Count() <= {k} or j.hits()[{k}] > 0).Select(lambda j: j.pt()))", ["index", "or", "guard"])
